@@ -67,9 +67,12 @@ func c09EngIP(s string) net.IP {
 	if s == "" {
 		return nil
 	}
-	ip := net.ParseIP(s)
+	ip := net.ParseIP(strings.TrimPrefix(s, "b4:"))
 	if ip == nil {
 		panic("c09: bad ip " + s)
+	}
+	if strings.HasPrefix(s, "b4:") {
+		return ip.To4() // the 4-byte form of the same address
 	}
 	return ip
 }
